@@ -669,6 +669,51 @@ func checkC15(p *Prog, res *Result, tier string) {
 			res.add("C15-R6", o.Rule+" "+o.Construct, o.Status, o.Pos, o.Detail)
 		}
 	}
+	// ---- R2 (freshness): a lock write that committed is followed by a read of the oracle on every path ----
+	// (the timestamp the next leader starts from is taken after the write that made it leader, not whenever the node
+	// first looked at the lock)
+	for _, b := range p.batches() {
+		if b.Fn.Pkg != p.ssaPkg("pkg/backend/election") || len(b.Commits) != 1 {
+			continue
+		}
+		cm, ok := b.Commits[0].(*ssa.Call)
+		if !ok {
+			continue
+		}
+		construct := funcName(b.Fn) + ": the engine timestamp is read after the committed lock write on every path"
+		rg := &fnRegion{root: b.Fn, descend: func(g *ssa.Function) bool { return g.Pkg == b.Fn.Pkg && g.Synthetic == "" }}
+		pa := posOf(cm)
+		miss, _, path := rg.search(&frame{fn: b.Fn}, pa.b, pa.i+1, superOpts{
+			stop: func(i ssa.Instruction, _ *frame) bool {
+				ci, ok := i.(ssa.CallInstruction)
+				return ok && r.is(ci, r.KVGetTSO)
+			},
+			bad: func(i ssa.Instruction, fr *frame) bool {
+				_, isRet := i.(*ssa.Return)
+				return isRet && fr.fn == b.Fn
+			},
+			skipEdge: func(from *ssa.BasicBlock, succ int, fr *frame) bool {
+				if fr.fn != b.Fn {
+					return false
+				}
+				iff := ifOf(from)
+				if iff == nil {
+					return false
+				}
+				cf := factOf(iff.Cond, succ == 0)
+				if cf.X == nil || !isNilConst(cf.Y) || !((cf.Op == token.NEQ && cf.Want) || (cf.Op == token.EQL && !cf.Want)) {
+					return false
+				}
+				rc, _, ok := extractOf(p.resolveDeep(cf.X))
+				return ok && rc == cm // the branch on which the commit failed
+			},
+		})
+		if miss != nil {
+			res.bad("C15-R2", construct, p.pos(miss.Pos()), "after a lock write that committed the function can return without having asked the engine for a timestamp ("+path+"): the lock keeps an older timestamp (the time the node first polled the lock), and a standby that takes over starts from a revision at or below revisions the previous leader has already stored")
+		} else {
+			res.ok("C15-R2", construct, p.pos(cm.Pos()), "every path from Commit()==nil to the return passes GetTimestampOracle")
+		}
+	}
 	// ---- R7: the in-process engine's oracle is the wall clock ----
 	if impl := p.implIn(r.KVGetTSO, "pkg/storage/memkv"); impl != nil {
 		construct := funcName(impl) + ": the timestamp is read from the wall clock"
